@@ -272,6 +272,10 @@ def api(rng, case, idx):
                 M.violate(['C14'], 'PARSE', 'C14:equivalent_quantities_fill_differently', {'spellings': [s for s, r in fills]})
             # concentrations through create_solution and dilute
             cM = rng.uniform(0.01, 2)
+            if rng.random() < 0.35:
+                # trace regime: nanomolar .. micromolar, values that the 1e-10 rounding of a parsed concentration keeps
+                cM = 2 * rng.randint(1, 4) * 10.0 ** (-rng.choice([6, 7, 8, 9]))
+                M.bucket('C14/api/trace_concentrations')
             sp = [f'{cM!r} M', f'{cM!r} mol/L', f'{cM * 1e3!r} mM', f'{cM!r} mmol/mL', f'{cM * 1e-2!r} mmol/10 uL', f'{cM * 1e3!r} mol/kL']
             sols = []
             for s in sp:
@@ -321,7 +325,9 @@ def api(rng, case, idx):
                     M.count('PARSE.api_equivalence')
                     M.bucket(f'C14/api/cross_numerator/{entry}')
                     good_ = [o for l_, o in outs if not isinstance(o, Exception)]
-                    differ = any(abs(g.get(k, 0.0) - good_[0][k]) > 1e-6 * abs(good_[0][k]) + 1e-6 for g in good_[1:] for k in good_[0])
+                    # a parsed concentration is kept to 1e-10 in the base units of its own spelling: relative quantum q/value
+                    relq = 4 * 2 * max(q / max(R.parse_concentration(l_)[0], 1e-300) for l_, o in outs)
+                    differ = any(abs(g.get(k, 0.0) - good_[0][k]) > (1e-6 + relq) * abs(good_[0][k]) + 1e-6 for g in good_[1:] for k in good_[0])
                     if (0 < len(good_) < len(outs)) or differ:
                         M.violate(['C14'], 'PARSE', f'C14:same_ratio_in_moles_or_grams_differs:{entry}',
                                   {'calls': [(l_, repr(o)[:160]) for l_, o in outs], 'mol_weight': mw})
